@@ -140,9 +140,8 @@ pub fn post_txn(w: &mut World, n: usize, kind: TxnKind, uid: Option<usize>, pre:
     if let Some(u) = uid {
         if w.cfg.profile == "relay" {
             let p = w.uids[u].payload.clone();
-            let mut b = BitSet::new();
-            b.insert(u);
-            w.mon.pool.push((p, b.clone(), b));
+            let (lo, hi) = (w.uids[u].carry_lo.clone(), w.uids[u].carry_hi.clone());
+            w.mon.pool.push((p, lo, hi));
         }
     }
     let prof = w.cfg.profile.clone();
@@ -158,6 +157,12 @@ pub fn post_txn(w: &mut World, n: usize, kind: TxnKind, uid: Option<usize>, pre:
     // SV bookkeeping for the monotonicity monitor
     w.nodes[n].last_sv = doc_sv(&w.nodes[n].doc);
     Ok(())
+}
+
+/// same set => same state, reported under the given profile's oracle id
+pub fn check_closed_as(w: &mut World, n: usize, _prof: &str) -> VResult {
+    let missing = has_missing(&w.nodes[n].doc);
+    check_closed(w, n, missing)
 }
 
 pub fn check_closed(w: &mut World, n: usize, missing: bool) -> VResult {
